@@ -77,6 +77,13 @@ def cases(draw):
             else:
                 o = draw(st.sampled_from(nodes))
             add([n, p, o])
+    if draw(st.integers(0, 3)) == 0:
+        # metamodelling: a class is itself a typed node (an instance of a meta class, of another class or of itself)
+        for j in range(n_classes):
+            if draw(st.booleans()):
+                add([["iri", classes[j]], RDF_TYPE, ["iri", draw(st.sampled_from(classes + ["http://ex.org/Meta"]))]])
+                if "http://ex.org/Meta" not in classes and any(t[2][1] == "http://ex.org/Meta" for t in triples):
+                    classes = classes + ["http://ex.org/Meta"]
     perm = draw(st.permutations(range(len(triples))))
     triples = [triples[i] for i in perm]
     cfg = {"instances_report_mode": "mixed", "inverse_paths": draw(st.booleans())}
